@@ -650,6 +650,18 @@ class PlaceInterp(RecInterp):
                 if name.endswith('_full'):
                     return opt((i, k_, v_))
                 return opt(v_)
+            if name in ('shift_remove_index', 'swap_remove_index') and len(a) == 1 and isinstance(a[0], int) and not isinstance(a[0], bool):
+                i = a[0]
+                if not 0 <= i < len(m.pairs):
+                    return ('ctor', NONE)
+                k_, v_ = m.pairs[i]
+                if name.startswith('swap'):
+                    last = m.pairs.pop()
+                    if i < len(m.pairs):
+                        m.pairs[i] = last
+                else:
+                    del m.pairs[i]
+                return opt((k_, v_))
             if name == 'entry' and len(a) == 1:
                 return self._entry(m, a[0])
             if name in ('iter', 'iter_mut', 'iter_mut2', 'into_iter', 'drain') and (not a or name == 'drain'):
